@@ -263,6 +263,23 @@ class Oracle:
         pass
 
 
+class InterposedQuery(Oracle):
+    """Environment move: get_last_point() may be called between pull and receive_reward (a choice point of
+    kind 'query'; put it AFTER the oracles that read the hand-out registers in after_pull)."""
+
+    name = "query"
+
+    def after_pull(self, ctx):
+        if ctx.src.choose("query", 2):
+            try:
+                ctx.algo.get_last_point()
+                ctx.extra["stats"].bump("interposed_queries")
+            except (Violation, HarnessError):
+                raise
+            except Exception:  # noqa: cannot recommend yet (finding D10 of C01)
+                pass
+
+
 class Stats:
     """Counters of one task; merged by the parent."""
 
